@@ -111,7 +111,7 @@ class Factoring:
                 _set(tree, path, name)
                 self.macros.append({"name": name, "pattern": body})
                 self.forms.append("item:" + ("str-body" if isinstance(body, str) else "list-body"))
-                if in_list and kind == "rule" and rng.random() < 0.4 and not (len(path) >= 2 and path[-2] == "$not"):
+                if in_list and kind == "rule" and rng.random() < 0.4 and not (len(path) >= 2 and path[-2] in ("$not", "$and_any_order")):
                     # a second use of the same macro: the inlined twin gets a copy of the sub-tree
                     idx = path[-1]
                     parent.insert(idx, name)
@@ -168,7 +168,7 @@ class Factoring:
                 self.macros.append({"name": name, "args": formals, "pattern": [body]})
                 self.forms.append(f"param:{len(formals)}")
                 # further uses with different / equal arguments
-                for _ in range(0 if (len(path) >= 2 and path[-2] == "$not") else rng.randint(0, 3)):
+                for _ in range(0 if (len(path) >= 2 and path[-2] in ("$not", "$and_any_order")) else rng.randint(0, 3)):
                     idx = path[-1]
                     same = rng.random() < 0.3
                     call2 = Opaque({name: None})
